@@ -522,4 +522,18 @@ theorem select_all {α : Type} (items : List α) : select items none none none =
   simp only [Int.natCast_zero, List.drop_zero, List.take_length] at this
   rw [this]
 
+/-- Python's selection commutes with mapping the elements. -/
+theorem select_map {α β : Type} (f : α → β) (items : List α) (start stop step : Option Int) :
+    select (items.map f) start stop step = (select items start stop step).map (List.map f) := by
+  unfold select
+  simp only [List.length_map]
+  split_ifs
+  · rfl
+  · simp only [Option.map_some, List.map_filterMap]
+    congr 2
+    funext i
+    split_ifs
+    · simp [List.getElem?_map]
+    · rfl
+
 end Tera.Index
